@@ -44,7 +44,7 @@ class RecR:
 def _structural(rep, name, ok, fn, why=""):
     r = {"status": "discharged" if ok else "refuted", "backend": "structural-identity", "time_s": 0.0, "model": None}
     rep.obligation(name, r, fn, "post")
-    return [] if ok else [(name, r, why, dict(op="wrapper", name=name))]
+    return [] if ok else [(name, {"status": "refuted", "hint": {}, "model_str": why}, why, dict(op="wrapper", name=name))]
 
 
 # ---- tiny real-valued shim for rotate_from_angax --------------------------------------------
@@ -213,6 +213,6 @@ def run(rep, tier):
             r = solve.discharge([nrm > 0, PI > 3], goal)
             rep.obligation(name + ".rotvec==axis/|axis|*angle_rad", r, describe(cls.rotate_from_angax)["function"], "post")
             if r["status"] == "refuted":
-                fails.append((name + ".rotvec", r, "rotation vector differs from axis/|axis|*angle[rad]", dict(op="wrapper")))
+                fails.append((name + ".rotvec", {"status": "refuted", "hint": {}, "model_str": str(r.get("model"))}, "rotation vector differs from axis/|axis|*angle[rad]", dict(op="wrapper")))
     rep.assumed_contract("scipy Rotation.from_rotvec/from_euler/from_matrix/from_mrp/from_quat: the documented parametrisations")
     return fails
